@@ -138,10 +138,10 @@ func vc12CoqCase(in *c12h.Input, r *c12h.Result) (string, bool) {
 	return fmt.Sprintf("CMetaU64 %s %s", v, vh.CoqN(cls)), true
 }
 
-func TestVerif_C12(t *testing.T) {
-	c12h.Run(t, &c12h.Part{
-		Name: "indexmeta",
-		Rule: "indexmeta.Meta.UnmarshalBinary + getters on mutated serialized metadata: no panic, allocation <= 64*len+64KiB; class = Coq model (parse_meta, meta_u64)",
+func vc12Part() *c12h.Part {
+	return &c12h.Part{
+		Name:  "indexmeta",
+		Rule:  "indexmeta.Meta.UnmarshalBinary + getters on mutated serialized metadata: no panic, allocation <= 64*len+64KiB; class = Coq model (parse_meta, meta_u64)",
 		Seeds: vc12Seeds, Gen: vc12Gen, Exec: vc12Exec,
 		Budget: func(in *c12h.Input) uint64 { return uint64(64*len(in.Data)) + 64<<10 },
 		Witnesses: func(seeds []c12h.Seed) map[string]c12h.Input {
@@ -150,5 +150,16 @@ func TestVerif_C12(t *testing.T) {
 		CoqImports: []string{"YF.C12_Check"}, CoqType: "meta_case",
 		CoqChecker: func(f map[string]bool) string { return "(check_meta " + vh.CoqBool(f["g_meta_u64"]) + ")" },
 		CoqCase:    vc12CoqCase, MaxCoq: 500,
-	})
+		Fuzz: vc12Fuzz,
+	}
+}
+
+func TestVerif_C12(t *testing.T) { c12h.Run(t, vc12Part()) }
+
+// native fuzz target (thorough tier; run by c12h.Run from an instrumented copy of the test binary)
+func FuzzVerifC12(f *testing.F) { c12h.FuzzBody(f, vc12Part()) }
+
+func vc12Fuzz(data []byte, sel uint64, seeds []c12h.Seed) *c12h.Input {
+	entries := []string{"unmarshal", "getuint64"}
+	return &c12h.Input{Entry: entries[sel%2], Label: "fuzz", Data: data}
 }
